@@ -51,6 +51,23 @@ def u_frames(ctx):
         refs = frames.entropy_refs(node)
         ctx.record("frame:%s:%s:draws-only-from-designated-generator" % (rel.split("/")[-1], q), not refs, kind="frame",
                    detail="entropy references outside the frame: %s" % refs)
+    # no helper with a generator of its own (third-party helpers seeded from the operating system): neither prng.seed nor an explicit
+    # generator would reach it.  Every function and method of the operator module and every framed function.
+    tree = ast.parse(loopcut.read_source(ADDON))
+    nodes = []
+    for c in tree.body:
+        if isinstance(c, ast.FunctionDef):
+            nodes.append((ADDON, c.name, c))
+        elif isinstance(c, ast.ClassDef):
+            nodes += [(ADDON, "%s.%s" % (c.name, f.name), f) for f in c.body if isinstance(f, ast.FunctionDef)]
+    nodes += [(rel, q, frames.function_node(rel, q)) for rel, q in FRAMED if rel != ADDON]
+    trees = {}
+    for rel, q, node in nodes:
+        if rel not in trees:
+            trees[rel] = ast.parse(loopcut.read_source(rel))
+        refs = frames.hidden_rng_calls(node, trees[rel])
+        ctx.record("frame:%s:%s:no-helper-with-its-own-unseeded-generator" % (rel.split("/")[-1], q), not refs, kind="frame",
+                   detail="calls that draw from a generator nobody can seed: %s" % refs)
     # setters: rng=None resolves to global_prng and nothing else
     for rel, q in [(MATE + "TwoWayCross.py", "TwoWayCross.rng"),
                    (CFG + "SampledSelectionConfigurationMixin.py", "SampledSelectionConfigurationMixin.rng")]:
@@ -224,3 +241,49 @@ def u_copy_alias(ctx):
                             ctx.record(name + ":harness-followed-the-method", False, kind="unsupported",
                                        detail="UNSUPPORTED %r" % (ex_,))
     ctx.record("alias:copy-methods-of-stochastic-components-found", found >= 2, kind="cover", detail="%d methods" % found)
+
+
+# ---------------------------------------------------------------------------
+# native: the operator module's own tiling helper (the hill-climbing mutators order their moves with it) is a function of the
+# global numpy stream that prng.seed seeds -- same seed, same result, whatever ran before
+def _addon_tiling_case(case):
+    import numpy as np
+    from pybrops.opt.algo import pymoo_addon
+    from pybrops.core.random import prng
+    st = np.random.get_state()
+    try:
+        outs = []
+        for noise in (0, case["noise"]):
+            prng.seed(case["seed"])
+            outs.append(np.asarray(pymoo_addon.tiled_choice(case["a"], case["size"])).tolist())
+            np.random.random(noise)                     # different history before the next re-seeding
+        ok_vals = all(0 <= v < case["a"] for v in outs[0]) and len(outs[0]) == case["size"]
+    finally:
+        np.random.set_state(st)
+    if not ok_vals:
+        return True, "tiled_choice(%d, %d) = %r: not %d values in [0, %d)" % (case["a"], case["size"], outs[0], case["size"], case["a"])
+    if outs[0] != outs[1]:
+        return True, "after prng.seed(%d) pymoo_addon.tiled_choice(%d, %d) gave %r, after re-seeding with the same seed %r" % (
+            case["seed"], case["a"], case["size"], outs[0], outs[1])
+    return False, "ok"
+
+
+@unit(P, "ring[operator module's tiling helper is reproducible after prng.seed]", "R", bounded=True, targets=[ADDON + ":tiled_choice"],
+      note="bounded: 300 (thorough 6000) seeded (a, size) pairs with a <= 9 and size <= 30: no complete tile, exactly one, several with and without remainder")
+def u_ring_addon_tiling(ctx):
+    ctx.rule = "seeded cases; every case non-trivial; distinct by its input"
+    for c in range(300 if ctx.tier == "quick" else 6000):
+        a = ctx.rng.randrange(1, 10)
+        case = dict(a=a, size=ctx.rng.choice([ctx.rng.randrange(0, 31), a, 2 * a, 2 * a + 1]), seed=ctx.rng.randrange(2 ** 31), noise=ctx.rng.randrange(0, 50))
+        try:
+            bad, msg = _addon_tiling_case(case)
+        except Exception as x:
+            bad, msg = True, "exception %s: %s" % (type(x).__name__, x)
+        ctx.case(repr(sorted(case.items())), nontrivial=True, sample=case if c < 2 else None)
+        if bad:
+            ctx.fail_input("ring:addon-tiling:reproducible", case, cls="addon-tiling", message=msg)
+            if len(ctx.failures) >= 3:
+                return
+
+
+REPLAYERS["ring[operator module's tiling helper is reproducible after prng.seed]"] = _addon_tiling_case
